@@ -3,6 +3,7 @@ package main
 import (
 	"fmt"
 	"go/token"
+	"go/types"
 	"os"
 	"strings"
 
@@ -24,6 +25,8 @@ func init() {
 		// a handle goes stale when its object is removed, and stays stale: the removal is durable when it is
 		// acknowledged - the asynchronous commit is for WRITE only
 		ruleU1(c, "C08.G9")
+		ruleG10(c, "C08.G10")
+		ruleG11(c, "C08.G11")
 	}
 }
 
@@ -441,4 +444,140 @@ func fieldNameOfValue(f *ssa.Field) string {
 		return st.Field(f.Field).Name()
 	}
 	return ""
+}
+
+// ruleG10: the identity of an inode slot survives its reuse.  The generation
+// number only ever moves forward (FreeInode's Gen+1, C08.G2); that is lost if
+// an inode object is overwritten as a whole ("*ip = Inode{...}"): the fields
+// the literal does not name - Gen above all - restart at zero, and the handles
+// of the number's first life become valid again.
+func ruleG10(c *Ctx, id string) {
+	V, P, R := c.V, c.P, c.R
+	R.Rule(id, "an inode object is never overwritten as a whole: no function stores an Inode struct value through an *Inode (the generation survives every reuse of the slot)", 1)
+	n := 0
+	for _, fn := range P.RepoFuncs() {
+		if strings.HasPrefix(relPkg(fn), "cmd/") || relPkg(fn) == "simple" {
+			continue
+		}
+		for _, b := range fn.Blocks {
+			for _, in := range b.Instrs {
+				st, ok := in.(*ssa.Store)
+				if !ok {
+					continue
+				}
+				pt, isP := st.Addr.Type().Underlying().(*types.Pointer)
+				if !isP {
+					continue
+				}
+				nm, _ := types.Unalias(pt.Elem()).(*types.Named)
+				if nm == nil || nm != V.Inode {
+					continue
+				}
+				// a store of a whole Inode value; the target is not a fresh local being built
+				if al, isA := st.Addr.(*ssa.Alloc); isA && al.Parent() == fn {
+					continue
+				}
+				n++
+				R.Fail(id, FuncName(ownerOf(fn))+"|overwrites an inode object", P.Pos(st.Pos()), "inode objects are updated field by field", "a whole Inode value is stored through a pointer: every field the new value does not carry over (Gen, Nlink, block pointers) is reset - a handle of the slot's earlier life is accepted again")
+			}
+		}
+	}
+	R.Check(n == 0, id, "summary|no whole-value store to an inode", "?", "no store of an Inode struct value through an *Inode in the server packages", "0 such stores", fmt.Sprintf("%d stores (listed above)", n))
+}
+
+// ruleG11: lockInodes answers for every position of its argument.  The loop
+// that puts a locked inode back "in the same position(s) as in inums" must
+// look at every position: a list can name a number twice (two byte-different
+// handles of one directory, a stale and a live handle of a reused number), and
+// a position left nil is dereferenced by the generation check that should have
+// answered STALE.
+func ruleG11(c *Ctx, id string) {
+	V, P, R := c.V, c.P, c.R
+	R.Rule(id, "lockInodes fills every position: the loop that stores a locked inode into the result visits every element of the argument (no exit from the loop after a store)", 1)
+	f := V.lockInodes
+	if f == nil {
+		return
+	}
+	n := 0
+	for _, sc := range scopesOf(f) {
+		for _, b := range sc.Fn.Blocks {
+			for _, in := range b.Instrs {
+				st, ok := in.(*ssa.Store)
+				if !ok {
+					continue
+				}
+				ia, isIA := st.Addr.(*ssa.IndexAddr)
+				if !isIA || !isInodePtr(st.Val.Type()) {
+					continue
+				}
+				if _, isMk := stripConv(ia.X).(*ssa.MakeSlice); !isMk {
+					continue
+				}
+				if !reachableFrom(st, st) {
+					continue // not in a loop
+				}
+				n++
+				// the innermost loop around the store: the header is the nearest dominator of the store's block that
+				// the store's block can reach back to
+				var head *ssa.BasicBlock
+				for d := st.Block(); d != nil; d = d.Idom() {
+					back := false
+					for _, p := range d.Preds {
+						if d.Dominates(p) {
+							back = true
+						}
+					}
+					if back {
+						head = d
+						break
+					}
+				}
+				ok2 := head != nil
+				why := "no loop header found"
+				if head != nil {
+					// every way on from the store comes back to the header: no block that cannot
+					canReach := func(from *ssa.BasicBlock) bool {
+						seen := map[*ssa.BasicBlock]bool{}
+						work := []*ssa.BasicBlock{from}
+						for len(work) > 0 {
+							x := work[len(work)-1]
+							work = work[:len(work)-1]
+							if x == head {
+								return true
+							}
+							if seen[x] {
+								continue
+							}
+							seen[x] = true
+							for _, s2 := range x.Succs {
+								if head.Dominates(s2) {
+									work = append(work, s2)
+								}
+							}
+						}
+						return false
+					}
+					seen := map[*ssa.BasicBlock]bool{}
+					work := append([]*ssa.BasicBlock{}, st.Block().Succs...)
+					for len(work) > 0 {
+						x := work[len(work)-1]
+						work = work[:len(work)-1]
+						if seen[x] || x == head {
+							continue
+						}
+						seen[x] = true
+						if !head.Dominates(x) || !canReach(x) {
+							ok2, why = false, "after storing one position the loop is left ("+P.Pos(x.Instrs[0].Pos())+")"
+							break
+						}
+						work = append(work, x.Succs...)
+					}
+				}
+				R.Check(ok2, id, "nfs.lockInodes|every position is filled", P.Pos(st.Pos()), "after a position of the result is stored the scan over the argument goes on to the next element", "no exit from the filling loop after the store", why+": a number named twice gets an inode at its first position only - the other stays nil and the caller dereferences it")
+			}
+		}
+	}
+	if n == 0 {
+		R.Fail(id, "nfs.lockInodes|fills its result", P.Pos(f.Pos()), "lockInodes stores the locked inodes into the slice it returns, in a loop", "no such store found")
+	}
 }
